@@ -531,7 +531,13 @@ def r12_3_connectives(ctx: Ctx, rule: str = "R12.3") -> None:
             caps = pattern_captures(p.steps[i].node.pattern)  # type: ignore[union-attr]
             opsv = next((n for n, a in caps.items() if a == ("operands",)), f"{si}.operands")
             txt = " ".join(src(e) for e in sl.exprs)
-            if py in names and other_py not in names and "convert_predicate" in names and f"in {opsv}" in txt:
+            lazy = any(
+                isinstance(c, ast.Call) and call_attr(c) == py and c.args and isinstance(c.args[0], ast.GeneratorExp)
+                for e in sl.exprs for c in ast.walk(e)
+            )
+            if py in names and other_py not in names and "convert_predicate" in names and f"in {opsv}" in txt and not lazy:
+                run.fail(rule, inst + ":short-circuit", f"the iteration engine evaluates every operand of {cname} before combining them (`{py}` over a list): operands after a deciding one must not be evaluated, as in SQL and in sequentially applied selections", fi=fi, node=p.node)
+            elif py in names and other_py not in names and "convert_predicate" in names and f"in {opsv}" in txt:
                 run.ok(rule, inst)
             else:
                 run.fail(rule, inst, f"the iteration engine evaluates {cname} with {sorted(n for n in names if n in ('all', 'any'))} over `{opsv}`; expected `{py}` of every converted operand", fi=fi, node=p.node)
